@@ -255,6 +255,53 @@ fn scenario(limit: usize, kinds: &[End], reverse: bool) -> Result<Res, String> {
     Ok(Res { viol: None, events })
 }
 
+/// limit 1: one connection that ends (closes, or stalls until the idle timeout) at byte offset
+/// `off` of a request; afterwards exactly one fresh connection is served, a second one waits.
+fn offset_scenario(off: usize, stall: bool, oversized: bool) -> Result<Option<(String, String)>, String> {
+    let item_limit = 1024u32;
+    let w = NetWorld::new(NetCfg { conn_limit: 1, item_limit, ..Default::default() })?;
+    let req = if oversized {
+        Req::store(op::SET, b"big", &vec![b'x'; item_limit as usize + 40], 0, 0, 0).bytes()
+    } else {
+        Req::store(op::SET, b"half", b"value-value-value", 0, 0, 0).bytes()
+    };
+    let off = off.min(req.len());
+    let mut c = w.connect()?;
+    if off > 0 {
+        let _ = c.step(&w, &req[..off]);
+    }
+    if stall {
+        w.advance(61);
+        c.pump();
+        if !c.eof && off < req.len() {
+            return Ok(Some((
+                "offset|not-timed-out".into(),
+                format!("connection silent after {} of {} request bytes is still open after 61 s", off, req.len()),
+            )));
+        }
+    }
+    c.close(&w);
+    let mut a = open(&w, 0xa1)?;
+    let mut b = open(&w, 0xa2)?;
+    w.settle();
+    a.c.pump();
+    b.c.pump();
+    let served = [count_noops(&a.c), count_noops(&b.c)];
+    if served != [1, 0] {
+        return Ok(Some((
+            format!("offset|slot-{}", if served[0] == 0 { "lost" } else { "doubled" }),
+            format!(
+                "limit 1: after a connection that {} at byte {} of a {}request, fresh connections answered {:?}, expected [1, 0]",
+                if stall { "stalled until the idle timeout" } else { "was closed" },
+                off,
+                if oversized { "oversized " } else { "" },
+                served
+            ),
+        )));
+    }
+    Ok(None)
+}
+
 pub fn check(tier: Tier, threads: usize) -> CheckOutcome {
     let t0 = Instant::now();
     let limits: Vec<usize> = if tier == Tier::Quick { vec![1, 2] } else { vec![1, 2, 3, 4] };
@@ -318,6 +365,34 @@ pub fn check(tier: Tier, threads: usize) -> CheckOutcome {
             }
         }
     }
+    // every byte offset of a request (normal and oversized), closed there or stalled until the timeout
+    let mut offs: Vec<(usize, bool, bool)> = vec![];
+    for off in 0..=46 {
+        offs.push((off, false, false));
+        offs.push((off, true, false));
+    }
+    for off in [0usize, 1, 23, 24, 25, 100, 500, 1023, 1024, 1025, 1090, 1095, 1096] {
+        offs.push((off, false, true));
+        offs.push((off, true, true));
+    }
+    let ores = par_map(&offs, threads, |_, (o, s, big)| offset_scenario(*o, *s, *big));
+    for ((o, st, big), r) in offs.iter().zip(ores.iter()) {
+        match r {
+            Err(e) if e.starts_with("connect:") => {
+                found.entry("server|not-accepting".into()).or_insert(Violation {
+                    signature: "server|not-accepting".into(),
+                    what: format!("offset {} stall {} oversized {}: {}", o, st, big, e),
+                    replay: json!({"engine": "c17-offset"}),
+                });
+            }
+            Err(e) => mach = Some(e.clone()),
+            Ok(Some((sig, what))) => {
+                found.entry(sig.clone()).or_insert(Violation { signature: sig.clone(), what: what.clone(), replay: json!({"engine": "c17-offset", "offset": o, "stall": st, "oversized": big}) });
+            }
+            Ok(None) => {}
+        }
+    }
+    events += offs.len() as u64 * 4;
     let samples: Vec<serde_json::Value> = cases
         .iter()
         .step_by((cases.len() / 5).max(1))
@@ -329,9 +404,10 @@ pub fn check(tier: Tier, threads: usize) -> CheckOutcome {
         tier: if tier == Tier::Quick { "quick".into() } else { "thorough".into() },
         level: "fault_enumeration",
         coverage: json!({
-            "evaluations": cases.len(),
-            "distinct_nontrivial": cases.len(),
-            "states": cases.len(),
+            "evaluations": cases.len() + offs.len(),
+            "distinct_nontrivial": cases.len() + offs.len(),
+            "states": cases.len() + offs.len(),
+            "byte_offset_scenarios": offs.len(),
             "transitions": events,
             "traces_validated_against_impl": cases.len(),
             "limits": limits,
